@@ -43,11 +43,11 @@ prop('C06', prefix=['c06'],
      bounds='two input cells A1, B1, each a number / boolean / empty / the text abc / the error #N/A (solver chooses), one formula in C1 typed through the real '
             'parser and evaluated by the real evaluator from MIR: A1+B1 and A1-B1 with any two finite f64 (overflow -> #NUM!); A1*B1, A1/B1, A1%, A1&B1 and the six '
             'comparisons with numbers from {0, 1.5, -2, 1e200, 4}; -A1, IF(A1,B1,7), AND, OR, NOT, SUM(A1:B1), COUNT, COUNTA, ISNUMBER, ISTEXT, ISBLANK, '
-            'IFERROR(A1,9) with any finite f64; reference rules written in the harness: booleans count as 1/0 and empty as 0 in arithmetic, text is #VALUE!, '
+            'IFERROR(A1,9) with any finite f64; ABS, MIN(A1:B1), MAX, AVERAGE, ROUND(A1,0), LEN, CONCAT(A1,B1) with the number menu; reference rules written in the harness: booleans count as 1/0 and empty as 0 in arithmetic, text is #VALUE!, '
             'the left error wins, numbers < text < booleans in comparisons with empty taking the other side\'s type, ranges skip text/booleans/empties in SUM '
             'and COUNT, AND/OR scan left to right and stop at the deciding value (the engine\'s documented short circuit - Excel would still report an '
             'error behind it)',
-     outside='^ (powf), MIN/MAX/AVERAGE/ABS/ROUND/LEN/CONCAT, literals as operands, strings that look like numbers, comparison of numbers that differ '
+     outside='^ (powf), ROUND to other digit counts, literals as operands, strings that look like numbers, comparison of numbers that differ '
              'beyond 15 significant digits, nested formulas, arrays and broadcasting, other text than abc, other errors than #N/A')
 prop('C08', prefix=['c08'],
      bounds='Model::set_cells_with_result on a formula cell of each kind (plain, CSE anchor over <=2x2 with its spill cells, dynamic anchor) with a result that is any '
